@@ -2,6 +2,7 @@ package c10
 
 import (
 	"fmt"
+	"strings"
 	"testing"
 
 	"pgregory.net/rapid"
@@ -17,8 +18,50 @@ var hostile = []string{`\p{`, `(?<`, `{2147483647}`, `[z-a]`, `\x{110000}`, `$10
 	`[^`, `]`, `-`, `\`, `.`, `a`, `b`, `0`, ` `, "\n", `#`, `\p{L}`, `\P{Greek}`, `\w`, `\S`, `\d`, "\xff", "\x00", `😀`, `é`, `(?'n'`, `(?<1>`, `(?<n>`, `\k<n>`,
 	`(?(1)`, `(?(n)`, `{0}`, `{2}`, `{2,}`, `??`, `*?`, `(?x)`, `(?-i)`, `(?n:`, `\e`, `\a`, `\07`, `\400`, `\p{IsGreek}`, `\pL`, `[\d-z]`, `[a-\w]`, `(?:`, `\Q`, `\E`, `$`, `^`}
 
+// propWords are the words the \p{...} name resolution knows (categories, scripts, binary and
+// enumerated properties, their aliases and value aliases) plus near misses.
+var propWords = []string{"L", "Lu", "Nd", "Greek", "IsGreek", "Latin", "Emoji", "emoji", "Math", "math", "extpict", "Extended_Pictographic",
+	"sb", "wb", "gcb", "Sentence_Break", "Word_Break", "Grapheme_Cluster_Break", "sentencebreak", "wordbreak", "graphemeclusterbreak",
+	"ALetter", "aletter", "Extend", "ex", "ri", "Regional_Indicator", "hebrewletter", "wsegspace", "extendnumlet", "ATerm", "at", "cr", "lf", "zwj", "lv", "lvt",
+	"sc", "Script", "gc", "General_Category", "scx", "Any", "Assigned", "ASCII", "Cn", "Co", "Cs", "Other_Math", "White_Space", "ASCII_Hex_Digit", "L&", "LC", ""}
+
+func genPropEscape(t *rapid.T) string {
+	w := func() string {
+		s := rapid.SampledFrom(propWords).Draw(t, "propword")
+		switch rapid.IntRange(0, 5).Draw(t, "propcase") {
+		case 0:
+			s = strings.ToUpper(s)
+		case 1:
+			s = strings.ToLower(s)
+		case 2:
+			s = strings.ReplaceAll(s, "_", rapid.SampledFrom([]string{"", " ", "-", "__"}).Draw(t, "propsep"))
+		}
+		return s
+	}
+	name := w()
+	switch rapid.IntRange(0, 4).Draw(t, "propform") {
+	case 0:
+		name += "=" + w()
+	case 1:
+		name += ":" + w()
+	case 2:
+		name = "^" + name
+	}
+	esc := rapid.SampledFrom([]string{`\p{`, `\P{`, `[\p{`, `[^\P{`, `(?i)\p{`, `[a-z-[\p{`}).Draw(t, "propesc") + name + "}"
+	if strings.Contains(esc, "[") {
+		esc += strings.Repeat("]", strings.Count(esc, "["))
+	}
+	return esc
+}
+
 func genPattern(t *rapid.T) string {
-	switch rapid.IntRange(0, 7).Draw(t, "patsrc") {
+	switch rapid.IntRange(0, 8).Draw(t, "patsrc") {
+	case 8:
+		s := genPropEscape(t)
+		if rapid.Bool().Draw(t, "propmore") {
+			s += rapid.SampledFrom(hostile).Draw(t, "piece") + genPropEscape(t)
+		}
+		return s
 	case 0:
 		return corpus.Patterns[rapid.IntRange(0, len(corpus.Patterns)-1).Draw(t, "corpus")].P
 	case 1:
